@@ -102,6 +102,31 @@ def rule_r2(ctx):
                       "a value stops being an input/output of the node but its sharding annotation on that node is kept (dangling)",
                       how=how)
     ctx.require(n >= 3, "shrinking stores of Node._inputs/_outputs not recognised")
+    # the drop is never filtered by a property of the detached value: whether the value still has uses elsewhere, a name, a
+    # type … says nothing about whether it is still attached to *this* node - that is decided inside the drop itself.  The
+    # only tests on the dropped value admitted around the call are identity tests (`is (not) None`, `is (not) <new value>`)
+    for f in list(node.methods.values()):
+        for c in (x for x in calls_in(f) if is_self_call(x, "_drop_sharding_for_value") and x.args):
+            arg = c.args[0]
+            names = {y.id for y in ast.walk(arg) if isinstance(y, ast.Name)} - {"self"}
+            bad = None
+            child, p_ = c, getattr(c, "_parent", None)
+            while p_ is not None and p_ is not f.node:
+                if isinstance(p_, (ast.If, ast.While)) and any(child is y for y in p_.body + p_.orelse) or isinstance(p_, ast.IfExp):
+                    conj = p_.test.values if isinstance(p_.test, ast.BoolOp) else [p_.test]
+                    for t in conj:
+                        if not ({y.id for y in ast.walk(t) if isinstance(y, ast.Name)} & names):
+                            continue
+                        ident = isinstance(t, ast.Compare) and all(isinstance(o, (ast.Is, ast.IsNot)) for o in t.ops)
+                        if not ident:
+                            bad = t
+                child, p_ = p_, getattr(p_, "_parent", None)
+            ctx.check("R2", f"{f.local}: {norm(c)} is not filtered by a property of the detached value", bad is None, f, bad if bad is not None else c,
+                      f"the annotations of the detached value are dropped only when `{norm(bad) if bad is not None else ''}`: a value that leaves this node "
+                      "but is still used by another node (fan-out) keeps its sharding annotation here - an annotation on a value that is no "
+                      "longer an input or output of the node",
+                      how="tests on the dropped value around the drop call are identity tests only", nontrivial=bad is not None,
+                      construct=f"drop filtered by {norm(bad)[:60] if bad is not None else ''}")
     # replace_input_with: drop only when the old value really left
     rp = node.methods["replace_input_with"]
     c = [x for x in calls_in(rp) if is_self_call(x, "_drop_sharding_for_value")]
